@@ -10,6 +10,13 @@ BASELINE_OFF = ("cd /repo && env -u PYOPENAPI_GEN_VERIF /venv/bin/python -m pyte
 
 # id -> (category, technique, level text, level note, design ref)
 CHECKS = {
+    "C20": ("exploration", "runtime monitoring: icontract postconditions on the real name-derivation functions (exhaustive short strings) + namespace read-back by introspection of generated code",
+            "Function level: all 41370 strings of length<=4 over a 14-character alphabet (letters, digit, separators, symbols, accented, CJK) plus random "
+            "Unicode are passed through the seven real derivation functions with icontract postconditions attached from the harness (non-empty, "
+            "str.isidentifier, not a keyword); evaluation counters per function are reported and zero evaluations is inconclusive. Namespace level: "
+            "pairs of distinct spec names placed in one namespace are generated for real and read back from the imported package. Held on what was observed.",
+            "Oracle at function level is identifier validity only; class-body validity is judged by importing generated code. Exhaustive only up to length 4 over the stated alphabet.",
+            "DESIGN.md §4 C20"),
     "C16": ("exploration", "runtime monitoring: round-trip law oracles + icontract postcondition on the real converter/serialiser, first-use-order differential in fresh processes",
             "Random dataclass type trees (depth<=4, list/dict/Optional/nested, 7 leaf types, 4 kinds of Meta key map) are written as source modules, "
             "imported, and driven through the repository's own structure_from_dict / unstructure_to_dict / DataclassSerializer.serialize; an independent "
